@@ -82,8 +82,11 @@ class ScalarSym:
         if isinstance(e, ast.Compare) and len(e.ops) == 1 and isinstance(e.ops[0], (ast.Lt, ast.Gt)):
             l, r = self.ev(e.left, env, aliases), self.ev(e.comparators[0], env, aliases)
             d = sp.simplify(l - r)
-            # indicator symbols of the sign of (l - r)
-            key = ("neg" if isinstance(e.ops[0], ast.Lt) else "pos", str(d))
+            # indicator symbols of the sign of (l - r); `0 < x` and `x > 0` give the same symbol
+            kind = "neg" if isinstance(e.ops[0], ast.Lt) else "pos"
+            if d.could_extract_minus_sign():
+                d, kind = sp.simplify(-d), ("pos" if kind == "neg" else "neg")
+            key = (kind, str(d))
             return sp.Symbol(f"I_{key[0]}[{key[1]}]", nonnegative=True)
         if isinstance(e, ast.IfExp):
             a, b = self.ev(e.body, env, aliases), self.ev(e.orelse, env, aliases)
